@@ -150,8 +150,11 @@ def selftest():
     # extra: long key, long iv; one-shot equals stepwise; a different iv gives different data
     a = HMAC(H[128:255], H[:127]).step(256)
     assert a == hmac_rand(H[128:255], H[:127], 256)
-    iv2 = bytes([(H[0] + 1) & 0xFF]) + H[1:127]
-    assert HMAC(H[128:255], iv2).step(256) != a
+    # ("volatile iv" test: an iv longer than 64 octets is referenced, not copied, by the library;
+    #  changing it after Start changes the Y_t but not the initial r)
+    g = HMAC(H[128:255], H[:127])
+    g.iv = bytes([(H[0] + 1) & 0xFF]) + H[1:127]
+    assert g.step(256) != a
     return True
 
 
